@@ -23,6 +23,13 @@ Proof. vm_compute. reflexivity. Qed.
 Theorem C07_policy_before_data : check_policy_before_data skel = true /\ check_update_is_one_section skel = true.
 Proof. vm_compute. split; reflexivity. Qed.
 
+(** the same, path by path and without the abstract interpreter: on EVERY path of UpdateResource the write section of m.mu
+    is opened first and closed only by the function's deferred unlock, and every handler call precedes the first write of
+    the cache.  With SkelProofs.writer_excludes_accesses (no other goroutine can access a field guarded by m.mu while one
+    holds m.mu in write mode) no lookup can read the cache between the handlers and the write. *)
+Theorem C07_policy_before_data_on_every_path : check_policy_paths skel = true.
+Proof. vm_compute. reflexivity. Qed.
+
 (** update handlers never call back into the manager *)
 Theorem C07_handlers_do_not_reenter : check_no_reentry skel = true.
 Proof. vm_compute. reflexivity. Qed.
@@ -58,6 +65,11 @@ Proof.
   rewrite forallb_forall in H. exact H.
 Qed.
 
+(** non-vacuity: there are paths, and some of them take two locks *)
+Theorem C07_paths_exist : (100 <=? length (paths_of enumerated))%nat = true /\
+  existsb (fun p => (2 <=? length (filter (fun a => match a with AAcq _ _ => true | _ => false end) p))%nat) (paths_of enumerated) = true.
+Proof. vm_compute. split; reflexivity. Qed.
+
 (** DEADLOCK FREEDOM of the lock structure: any number of goroutines, each anywhere along any path of any of these
     functions - no cycle of goroutines each waiting for a lock the next one holds *)
 Theorem C07_no_lock_deadlock : forall ts,
@@ -76,9 +88,11 @@ Proof. exact (checked_paths_no_race true (paths_of enumerated) C07_every_path_ch
 
 Print Assumptions C07_lock_discipline.
 Print Assumptions C07_policy_before_data.
+Print Assumptions C07_policy_before_data_on_every_path.
 Print Assumptions C07_handlers_do_not_reenter.
 Print Assumptions C07_blocking_send_under_locks_without_capacity.
 Print Assumptions C07_queue_consumer_never_waits_for_a_lock.
 Print Assumptions C07_every_path_checked.
+Print Assumptions C07_paths_exist.
 Print Assumptions C07_no_lock_deadlock.
 Print Assumptions C07_no_data_race.
